@@ -272,4 +272,3 @@ func runServer(src string, cfg egorun.Config) (res Res) {
 	}
 	return res
 }
-
